@@ -112,6 +112,18 @@ theorem height_thr (st : Static) (c c' : Cfg) (h : stepThr st c = some c') :
       · cases h
   · cases h
 
+/-- `_new_setpoint` re-bases UNCONDITIONALLY - also when the new vertical velocity equals the one in force: base height :=
+current height, velocity := the set-point's, base time := now; so from then on the height is (height now) + vz x (time since) -/
+theorem new_setpoint_rebases (st : Static) (c c' : Cfg) (s : SP) (q : List Ev) (ha : c.thr.alive = true)
+    (hq : c.thr.queue = .sp s :: q) (h : stepThr st c = some c') :
+    c'.thr.zBase = curZ c.thr c.now ∧ c'.thr.zVel = s.vz ∧ c'.thr.zT = c.now ∧ c'.thr.hz = curZ c.thr c.now ∧
+    ∀ t, curZ c'.thr t = curZ c.thr c.now + s.vz * (t - c.now) := by
+  unfold stepThr at h
+  simp only [ha, if_true, hq] at h
+  cases h
+  refine ⟨rfl, rfl, rfl, ?_, fun t => rfl⟩
+  simp only [curZ_eq]; ring
+
 /-- the commanding thread: no time passes; except when it starts a (fresh) thread it changes the thread only by
 queueing - a queued set-point replaces the commanded vertical velocity, the height is untouched -/
 theorem height_main (st : Static) (c c' : Cfg) (h : stepMain st c = some c') :
